@@ -254,11 +254,18 @@ def gen_eyepatch():
 def cargo_check(dirpath, name, src, env, toolchain=None, features=None):
     os.makedirs(os.path.join(dirpath, "src"), exist_ok=True)
     dep = 'triomphe = { path = "/repo" }' if not features else 'triomphe = { path = "/repo", features = [%s] }' % ", ".join('"%s"' % f for f in features)
-    open(os.path.join(dirpath, "Cargo.toml"), "w").write('[package]\nname = "%s"\nversion = "0.0.0"\nedition = "2021"\n\n[dependencies]\n%s\n\n[workspace]\n' % (name, dep))
+    tomlp = os.path.join(dirpath, "Cargo.toml")
+    toml_new = ('[package]\nname = "%s"\nversion = "0.0.0"\nedition = "2021"\n\n[dependencies]\n%s\n\n[workspace]\n' % (name, dep))
+    if not os.path.exists(tomlp) or open(tomlp).read() != toml_new:
+        open(tomlp, "w").write(toml_new)
     if os.path.exists("/repo/Cargo.lock") and not os.path.exists(os.path.join(dirpath, "Cargo.lock")):
         # same resolution as the repository itself
         open(os.path.join(dirpath, "Cargo.lock"), "w").write(open("/repo/Cargo.lock").read())
-    open(os.path.join(dirpath, "src", "lib.rs"), "w").write(src)
+    libp = os.path.join(dirpath, "src", "lib.rs")
+    if not os.path.exists(libp) or open(libp).read() != src:  # checks may run side by side: do not rewrite identical probes
+        tmp = libp + ".%d.tmp" % os.getpid()
+        open(tmp, "w").write(src)
+        os.replace(tmp, libp)
     cmd = ["cargo"] + (["+" + toolchain] if toolchain else []) + ["check", "--offline", "--message-format=json", "--quiet"]
     p = subprocess.run(cmd, cwd=dirpath, env=env, stdout=subprocess.PIPE, stderr=subprocess.PIPE, text=True)
     diags = []
@@ -291,6 +298,93 @@ def attribute(cells, diags):
         if not hit:
             stray.append(d)
     return per, stray
+
+
+
+# ---------------------------------------------------------------------------------------------- API obligations other than auto traits and lifetimes
+# Signatures whose *bounds, receivers and by-value parameters* carry memory safety: loosening one
+# changes nothing at run time and admits client programs that were rejected before. Each cell is
+# owned by the property whose guarantee it protects; (owner, name, rejected body, control body, codes)
+API_PRELUDE = BORROW_PRELUDE + """pub fn need_clone<T: ?Sized + Clone>() {}
+pub fn need_copy<T: Copy>() {}
+pub fn need_deref_mut<T: ?Sized + std::ops::DerefMut>() {}
+pub struct NoClone(pub u8);
+"""
+API_CELLS = [
+    # bitwise-copying constructors must insist on Copy elements (a memcpy of owning elements duplicates them)
+    ("C06", "Arc::from_header_and_slice accepts only Copy elements", "let v = vec![String::new()]; let _a = Arc::from_header_and_slice(1u8, &v[..]);", "let v = vec![1u16]; let _a = Arc::from_header_and_slice(1u8, &v[..]);", ["E0277"]),
+    ("C06", "ThinArc::from_header_and_slice accepts only Copy elements", "let v = vec![String::new()]; let _a = ThinArc::from_header_and_slice(1u8, &v[..]);", "let v = vec![1u16]; let _a = ThinArc::from_header_and_slice(1u8, &v[..]);", ["E0277"]),
+    ("C06", "Arc<[T]>: From<&[T]> accepts only Copy elements", "let v = vec![String::new()]; let _a = <Arc<[String]> as From<&[String]>>::from(&v[..]);", "let v = vec![1u16]; let _a = <Arc<[u16]> as From<&[u16]>>::from(&v[..]);", ["E0277"]),
+    ("C06,C01", "Arc::from_header_and_slice accepts only Copy elements (Arc elements)", "let v = vec![mk()]; let _a = Arc::from_header_and_slice((), &v[..]);", "let v = vec![mk()]; let _a = Arc::from_header_and_iter((), v.iter().cloned());", ["E0277"]),
+    # cloning needs Clone
+    ("C08", "Arc::make_mut requires Clone", "let mut a = Arc::new(NoClone(1)); let _ = Arc::make_mut(&mut a);", "let mut a = mk(); let _ = Arc::make_mut(&mut a);", ["E0277", "E0599"]),
+    ("C08", "Arc::make_unique requires Clone", "let mut a = Arc::new(NoClone(1)); let _ = Arc::make_unique(&mut a);", "let mut a = mk(); let _ = Arc::make_unique(&mut a);", ["E0277", "E0599"]),
+    ("C08", "OffsetArc::make_mut requires Clone", "let mut o = Arc::into_raw_offset(Arc::new(NoClone(1))); let _ = o.make_mut();", "let mut o = mk_off(); let _ = o.make_mut();", ["E0277", "E0599"]),
+    ("C09", "Arc::unwrap_or_clone requires Clone", "let a = Arc::new(NoClone(1)); let _ = Arc::unwrap_or_clone(a);", "let a = mk(); let _ = Arc::unwrap_or_clone(a);", ["E0277", "E0599"]),
+    # a unique handle cannot be duplicated; shared handles give no mutable access by themselves
+    ("C03,C09", "UniqueArc<T> is not Clone", "need_clone::<UniqueArc<String>>();", "need_clone::<Arc<String>>();", ["E0277"]),
+    ("C03,C09", "UniqueArc<[T]> is not Clone", "need_clone::<UniqueArc<[u8]>>();", "need_clone::<Arc<[u8]>>();", ["E0277"]),
+    ("C03,C09", "UniqueArc<T> is not Copy", "need_copy::<UniqueArc<u8>>();", "need_copy::<ArcBorrow<'static, u8>>();", ["E0277"]),
+    ("C03", "Arc<T> is not DerefMut", "need_deref_mut::<Arc<String>>();", "need_deref_mut::<UniqueArc<String>>();", ["E0277"]),
+    ("C03", "Arc<[T]> is not DerefMut", "need_deref_mut::<Arc<[u8]>>();", "need_deref_mut::<UniqueArc<[u8]>>();", ["E0277"]),
+    ("C03", "OffsetArc<T> is not DerefMut", "need_deref_mut::<OffsetArc<String>>();", "need_deref_mut::<UniqueArc<String>>();", ["E0277"]),
+    ("C03", "ThinArc<H,T> is not DerefMut", "need_deref_mut::<ThinArc<u8, u16>>();", "need_deref_mut::<UniqueArc<String>>();", ["E0277"]),
+    ("C03", "ArcBorrow<T> is not DerefMut", "need_deref_mut::<ArcBorrow<'static, String>>();", "need_deref_mut::<UniqueArc<String>>();", ["E0277"]),
+    ("C03", "Arc::get_mut needs exclusive access to the handle", "let a = mk(); let _ = Arc::get_mut(&a);", "let mut a = mk(); let _ = Arc::get_mut(&mut a);", ["E0308"]),
+    ("C03", "Arc::get_unique needs exclusive access to the handle", "let a = mk(); let _ = Arc::get_unique(&a);", "let mut a = mk(); let _ = Arc::get_unique(&mut a);", ["E0308"]),
+    ("C08", "Arc::make_mut needs exclusive access to the handle", "let a = mk(); let _ = Arc::make_mut(&a);", "let mut a = mk(); let _ = Arc::make_mut(&mut a);", ["E0308"]),
+    ("C08", "OffsetArc::make_mut needs exclusive access to the handle", "let o = mk_off(); let _ = o.make_mut();", "let mut o = mk_off(); let _ = o.make_mut();", ["E0596"]),
+    ("C10", "ThinArc::with_arc_mut needs exclusive access to the handle", "let t = mk_thin(); t.with_arc_mut(|_a| {});", "let mut t = mk_thin(); t.with_arc_mut(|_a| {});", ["E0596"]),
+    ("C03", "mutation through a shared UniqueArc is rejected", "let u = mk_unique(); u.push('x');", "let mut u = mk_unique(); u.push('x');", ["E0596"]),
+    # conversions and unwrapping consume the handle they are given (else one owner becomes two)
+    ("C09", "Arc::try_unwrap consumes the handle", "let a = mk(); let _r = Arc::try_unwrap(a); touch(&a);", "let a = mk(); let _r = Arc::try_unwrap(a);", ["E0382"]),
+    ("C09", "Arc::try_unique consumes the handle", "let a = mk(); let _r = Arc::try_unique(a); touch(&a);", "let a = mk(); let _r = Arc::try_unique(a);", ["E0382"]),
+    ("C09", "Arc::unwrap_or_clone consumes the handle", "let a = mk(); let _r = Arc::unwrap_or_clone(a); touch(&a);", "let a = mk(); let _r = Arc::unwrap_or_clone(a);", ["E0382"]),
+    ("C09", "UniqueArc::into_inner consumes the handle", "let u = mk_unique(); let _r = UniqueArc::into_inner(u); touch(&u);", "let u = mk_unique(); let _r = UniqueArc::into_inner(u);", ["E0382"]),
+    ("C04", "UniqueArc::shareable consumes the handle", "let u = mk_unique(); let _a = u.shareable(); touch(&u);", "let u = mk_unique(); let _a = u.shareable();", ["E0382"]),
+    ("C04", "Arc::into_raw consumes the handle", "let a = mk(); let p = Arc::into_raw(a); touch(&a); unsafe { drop(Arc::from_raw(p)) };", "let a = mk(); let p = Arc::into_raw(a); unsafe { drop(Arc::from_raw(p)) };", ["E0382"]),
+    ("C04", "Arc::into_raw_offset consumes the handle", "let a = mk(); let _o = Arc::into_raw_offset(a); touch(&a);", "let a = mk(); let _o = Arc::into_raw_offset(a);", ["E0382"]),
+    ("C04", "Arc::from_raw_offset consumes the handle", "let o = mk_off(); let _a = Arc::from_raw_offset(o); touch(&o);", "let o = mk_off(); let _a = Arc::from_raw_offset(o);", ["E0382"]),
+    ("C04", "Arc::into_thin consumes the handle", "let a = Arc::from_thin(mk_thin()); let _t = Arc::into_thin(a); touch(&a);", "let a = Arc::from_thin(mk_thin()); let _t = Arc::into_thin(a);", ["E0382"]),
+    ("C04", "Arc::from_thin consumes the handle", "let t = mk_thin(); let _a = Arc::from_thin(t); touch(&t);", "let t = mk_thin(); let _a = Arc::from_thin(t);", ["E0382"]),
+    ("C04", "ThinArc::into_raw consumes the handle", "let t = mk_thin(); let p = ThinArc::into_raw(t); touch(&t); unsafe { drop(ThinArc::<u8, u16>::from_raw(p)) };", "let t = mk_thin(); let p = ThinArc::into_raw(t); unsafe { drop(ThinArc::<u8, u16>::from_raw(p)) };", ["E0382"]),
+    ("C12", "ArcUnion::from_first consumes the Arc", "let a = mk(); let _u: ArcUnion<String, u8> = ArcUnion::from_first(a); touch(&a);", "let a = mk(); let _u: ArcUnion<String, u8> = ArcUnion::from_first(a);", ["E0382"]),
+    ("C12", "ArcUnion::from_second consumes the Arc", "let a = mk(); let _u: ArcUnion<u8, String> = ArcUnion::from_second(a); touch(&a);", "let a = mk(); let _u: ArcUnion<u8, String> = ArcUnion::from_second(a);", ["E0382"]),
+    ("C15", "UniqueArc::assume_init consumes the handle", "let mut u: UniqueArc<std::mem::MaybeUninit<u8>> = UniqueArc::new_uninit(); u.write(1); let _i = unsafe { UniqueArc::assume_init(u) }; touch(&u);", "let mut u: UniqueArc<std::mem::MaybeUninit<u8>> = UniqueArc::new_uninit(); u.write(1); let _i = unsafe { UniqueArc::assume_init(u) };", ["E0382"]),
+]
+
+
+def gen_api(which):
+    lines = API_PRELUDE.rstrip("\n").split("\n")
+    cells = []
+    for i, (owner, name, rej, ctl, codes) in enumerate(API_CELLS):
+        start = len(lines) + 1
+        lines.append("pub fn cell_%d() {" % i)
+        lines.append("    " + (rej if which == "reject" else ctl))
+        lines.append("}")
+        cells.append({"name": name, "owner": owner, "codes": codes, "line_start": start, "line_end": len(lines), "accept": which != "reject"})
+    return "\n".join(lines) + "\n", cells
+
+
+def run_api(build_dir, env):
+    """The API-obligation matrix. Returns dict(evaluations, distinct, violations (each with 'owner'), samples, detail)."""
+    src, cells = gen_api("control")
+    rc, diags, err = cargo_check(os.path.join(build_dir, "probe_api_control"), "probe_api_control", src, env)
+    if diags or rc != 0:
+        return {"machinery": "probe_api_control: the positive controls do not compile, the rejected cells prove nothing: %s %s" % (diags[:3], err[-800:])}
+    src, cells = gen_api("reject")
+    rc, diags, err = cargo_check(os.path.join(build_dir, "probe_api"), "probe_api", src, env)
+    per, stray = attribute(cells, diags)
+    if stray or (rc != 0 and not diags):
+        return {"machinery": "probe_api: unexpected compiler output: %s %s" % (stray[:3], err[-500:])}
+    violations = []
+    for i, c in enumerate(cells):
+        got = per.get(i, set())
+        if got and not (got & set(c["codes"])):
+            return {"machinery": "probe_api: cell `%s` is rejected for another reason than the one it tests (%s, expected one of %s): the probe is wrong or the API changed" % (c["name"], sorted(got), c["codes"])}
+        if not got:
+            violations.append({"code": "api-obligation-dropped", "owner": c["owner"], "case": c["name"], "op": c["name"], "msg": "safe client code that must be rejected compiles: " + c["name"]})
+    return {"evaluations": 2 * len(cells), "distinct": len(cells), "violations": violations, "samples": [cells[0]["name"] + " -> rejected " + ",".join(sorted(per.get(0, [])))], "detail": {"api_cells": len(cells), "api_controls": len(cells), "owners": sorted({o for c in cells for o in c["owner"].split(",")})}}
 
 
 def run(build_dir, env):
